@@ -5,6 +5,9 @@
 // oracle evaluates `Intra.closed` (proved sufficient for the property in Argot/Props/C08.lean) on them.
 // On a criterion failure the offending instruction is wrapped between a source and a sink, the flow is
 // confirmed natively (two runs with different source values) and the real taint analysis is run on it.
+// Memory rows (C01 layer L2): the same record carries the store/load rows of the function and the may-alias
+// pairs of the REAL pointer analysis (dump.go memRows); the oracle's second answer line is the verdict of
+// `Intra.closedMem` (Argot/Model/IntraMem.lean, proved sufficient in Argot/Props/C08Mem.lean); see evaluateMem.
 package main
 
 import (
@@ -94,16 +97,102 @@ func runOracle(rep *lib.Report, b *batch, dir string) map[*fnDump]string {
 		sent = append(sent, d)
 	}
 	os.WriteFile(filepath.Join(dir, "oracle_in_"+b.name+".txt"), []byte(in.String()), 0o644)
-	lines, err := lib.RunOracle("oracle_c08", []byte(in.String()))
-	if err != nil || len(lines) != len(sent) {
-		rep.Fail("oracle-run:"+b.name, fmt.Sprintf("oracle failed: %v (%d answers for %d functions)", err, len(lines), len(sent)), nil, true)
+	all, err := lib.RunOracle("oracle_c08", []byte(in.String()))
+	// two answer lines per function: the `closed` verdict and the `closedMem` verdict ("mem …")
+	var lines, mems []string
+	for _, l := range all {
+		if strings.HasPrefix(l, "mem ") {
+			mems = append(mems, l)
+		} else {
+			lines = append(lines, l)
+		}
+	}
+	if err != nil || len(lines) != len(sent) || len(mems) != len(sent) {
+		rep.Fail("oracle-run:"+b.name, fmt.Sprintf("oracle failed: %v (%d+%d answers for %d functions)", err, len(lines), len(mems), len(sent)), nil, true)
 		return nil
 	}
 	res := map[*fnDump]string{}
 	for i, d := range sent {
 		res[d] = lines[i]
+		d.memLine = mems[i]
 	}
 	return res
+}
+
+// memory rows (Intra.closedMem, lean/Argot/Model/IntraMem.lean): evidence counters of this run
+var memStat = map[string]int{}
+
+// evaluateMem handles the `mem <id> none|ok|fail stores= loads= aliases= exempt= [diag]` line of d.
+// A failing function is a VIOLATION only if a source→store→alias→load→sink program of the same store/load kind
+// shows natively that the flow is real while the real taint analysis does not report it; otherwise it is counted
+// (mem_rows_failed_unconfirmed) and written to the scratch directory.
+func evaluateMem(rep *lib.Report, b *batch, d *fnDump, dir string) {
+	ws := strings.Fields(d.memLine)
+	if len(ws) < 3 {
+		return
+	}
+	kv := fields(d.memLine)
+	rows := atoi(kv["stores"]) + atoi(kv["loads"]) + atoi(kv["aliases"])
+	memStat["mem_functions_"+ws[2]]++
+	if ws[2] == "none" {
+		return
+	}
+	memStat["mem_rows_checked"] += rows
+	memStat["mem_store_rows"] += atoi(kv["stores"])
+	memStat["mem_load_rows"] += atoi(kv["loads"])
+	memStat["mem_alias_rows"] += atoi(kv["aliases"])
+	memStat["mem_alias_exempt_selfinit"] += atoi(kv["exempt"])
+	memStat["mem_store_rows_via_container"] += d.nMemContainers
+	memStat["mem_store_addr_without_query"] += d.nMemNoQuery
+	if ws[2] == "ok" {
+		return
+	}
+	idx := strings.Index(d.memLine, "exempt=")
+	detail := d.memLine[idx:]
+	if j := strings.IndexByte(detail, ' '); j >= 0 {
+		detail = detail[j+1:]
+	}
+	fails := strings.Split(detail, " ; ")
+	tried := map[string]bool{}
+	for _, raw := range fails {
+		fw := strings.Fields(raw)
+		if len(fw) == 0 {
+			continue
+		}
+		memStat["mem_rows_failed"]++
+		rep.Count(b.name + ":memfail:" + fw[0])
+		tk := memTemplateFor(d, fw[0], fields(raw))
+		if tk == "" || tried[tk] {
+			continue
+		}
+		tried[tk] = true
+		sr := runSearch(tk)
+		rep.Count("search:" + tk)
+		if sr.nativeDep && !sr.reported {
+			if reportedWraps[tk] {
+				rep.Count("wrap-again:" + tk)
+				return
+			}
+			reportedWraps[tk] = true
+			var sb strings.Builder
+			d.fn.WriteTo(&sb)
+			content := fmt.Sprintf("// closedMem failure: %s\n// in %s\n// native: the value at the sink changes with the source value; real taint analysis: flow NOT reported\n%s\n/*\n%s\nsource:\n%s\n\nSSA:\n%s\noracle record:\n%s*/\n",
+				raw, d.fn.String(), sr.program, d.memLine, b.srcs[rootName(d.fn)], sb.String(), d.text)
+			rep.Fail("wrap:"+tk, fmt.Sprintf("a flow through memory (%s) is lost: native run shows the sink value depends on the source, the taint analysis reports nothing (criterion closedMem: %s in %s)", tk, raw, d.fn.String()),
+				[]byte(content), false)
+			return
+		}
+	}
+	memStat["mem_rows_failed_unconfirmed"] += len(fails)
+	memStat["mem_functions_failed_unconfirmed"]++
+	var sb strings.Builder
+	fmt.Fprintf(&sb, "function: %s\n%s\n\nsource:\n%s\n\nSSA:\n", d.fn.String(), d.memLine, b.srcs[rootName(d.fn)])
+	d.fn.WriteTo(&sb)
+	fmt.Fprintf(&sb, "\noracle record:\n%s", d.text)
+	os.WriteFile(filepath.Join(dir, fmt.Sprintf("memfail_%s_%d.txt", b.name, memStat["mem_functions_failed_unconfirmed"])), []byte(sb.String()), 0o644)
+	if len(rep.Notes) < 20 {
+		rep.Notes = append(rep.Notes, "closedMem false, end-to-end templates all reported (unconfirmed): "+d.fn.String()+": "+fails[0])
+	}
 }
 
 // explore: VERIF_C08_EXPLORE=<program dir> dumps every function of that program's main package
@@ -144,7 +233,7 @@ func main() {
 		return
 	}
 	rep := lib.NewReport(prop)
-	rep.Rule = "one case = one function: real IntraProceduralAnalysis result (final MarkedValues restricted to parameter/free-variable/call-result marks + summary edges) checked against Intra.closed by the Lean oracle; generated functions: random typed statements over 23 types (see harness/cmd/c08/gen.go); distinct = distinct multiset of instruction kinds + block count; non-trivial = at least one origin, one value-computing instruction and one boundary target"
+	rep.Rule = "one case = one function: real IntraProceduralAnalysis result (final MarkedValues restricted to parameter/free-variable/call-result marks + summary edges) checked against Intra.closed by the Lean oracle; generated functions: random typed statements over 23 types (see harness/cmd/c08/gen.go); distinct = distinct multiset of instruction kinds + block count; non-trivial = at least one origin, one value-computing instruction and one boundary target; memory rows: for every function with a Store/MapUpdate/Send/select-send or a load, Intra.closedMem (storeOK, aliasOK over the may-alias pairs of the REAL pointer analysis, loadOK) is evaluated on the same real state (mem_* counters); a failure is a VIOLATION only when a source->store->alias->load->sink template is real natively and unreported by the real taint tool"
 	dir := workDir("prog")
 	r := lib.Rand("c08")
 
@@ -213,6 +302,12 @@ func main() {
 		rep.Dist["gen:"+k] = v
 	}
 	rep.Extra["generated_functions"] = nFuncs
+	for _, k := range []string{"mem_rows_checked", "mem_rows_failed", "mem_rows_failed_unconfirmed"} {
+		rep.Extra[k] = memStat[k]
+	}
+	for k, v := range memStat {
+		rep.Extra[k] = v
+	}
 	rep.Finish()
 }
 
@@ -234,6 +329,7 @@ func evaluate(rep *lib.Report, b *batch, dir string) {
 			continue
 		}
 		line := res[d]
+		evaluateMem(rep, b, d, dir)
 		key := ""
 		nx := 0
 		var ks []string
